@@ -7,6 +7,7 @@ patch="$1"; shift
 SR=/work/seedrepo; SV=/work/seedverif
 if [ ! -d $SR ]; then git -C /repo worktree add -q --detach $SR HEAD; fi
 git -C $SR checkout -q -- . && git -C $SR clean -fdq -e target
+git -C $SR checkout -q --detach "$(git -C /repo rev-parse HEAD)"
 git -C $SR apply "$patch"
 mkdir -p $SV
 rsync -a --delete --exclude harness/target --exclude work --exclude .git --exclude replay --exclude evidence /verif/ $SV/
